@@ -164,7 +164,8 @@ def run_history(case, ctx, bm):
             mirrored = chir(tjs) * chir(ts) < 0
             if mirrored != uninverted[0]:
                 ctx.bump("corrective_paths", "un-invert_witnesses_disagree")
-            viol("I1.joints", "joints_not_plate_times_local" + ("/after_un-invert" if (uninverted[0] or mirrored) else ""), err=e,
+            viol("I1.joints", "joints_not_plate_times_local" + ("/after_un-invert" if ((uninverted[0] or mirrored) and not unwarranted[0]) else
+                                                                ("/after_unwarranted_un-invert" if unwarranted[0] else "")), err=e,
                  bottom_err=tol.maxabs(bjs - bs), top_err=tol.maxabs(tjs - ts))
             ok = False
         ctx.clause("I2.lengths")
@@ -217,16 +218,24 @@ def run_history(case, ctx, bm):
 
     model_spun_away = [False]
     uninverted = [False]
+    unwarranted = [False]
     _orig_fix = getattr(sp, "_fixUpsideDown", None)
 
     def _fix_rec(*a, **k):           # observation only: which corrective path ran during this call
-        uninverted[0] = True
-        ctx.bump("corrective_paths", "un-invert")
+        # the known finding is about a WARRANTED un-invert (the solver left the top plate below the base, in the base's frame)
+        try:
+            relz = float((se3.inv(sp.getBottomT().gTM()) @ sp.getTopT().gTM())[2, 3])
+        except Exception:
+            relz = -1.0
+        uninverted[0] = relz < 0
+        unwarranted[0] = not (relz < 0)
+        ctx.bump("corrective_paths", "un-invert" if relz < 0 else "un-invert_unwarranted")
         return _orig_fix(*a, **k)
     if _orig_fix is not None:
         sp._fixUpsideDown = _fix_rec
     for step, op in enumerate(case["ops"]):
         uninverted[0] = False
+        unwarranted[0] = False
         k = op["op"]
         valid_flag = None
         pure = k in ("invjac", "static", "carry", "getters") or (k == "validate" and op.get("donothing"))
